@@ -34,6 +34,46 @@ FUNCTIONS = [
     "autoarray.inversion.inversion.inversion_util.curvature_matrix_via_mapping_matrix_from",
     "autoarray.inversion.inversion.inversion_util.curvature_matrix_with_added_to_diag_from",
 ]
+BOUNDS = {
+    "quick": "kernels (transformer_util): P<=3 pixels, K=2 baselines, S=2 columns; pixel coordinates in radians, baselines, image, signed mapping "
+             "matrix and complex visibilities ALL symbolic reals (cos/sin abstracted, see STUBS); one merged path covers every sign pattern of the matrix. "
+             "TransformerDFT class: every mask (>=1 unmasked pixel) of shape 2x2 by forking, preload on/off, image (slim- and native-stored Array2D), "
+             "signed mapping matrix (2 columns), directly constructed and arithmetic-derived Visibilities symbolic; geometry either symbolic "
+             "(origin and K=2 baselines symbolic, pixel scales (0.5, 2.0); exact obligations) or concrete (3 geometries with anisotropic scales, "
+             "off-centre origin, zero and repeated baselines; native cos/sin against an independent complex-exponential reference, tolerance 1e-9, "
+             "symbolic values bounded by 1000 in magnitude). InversionInterferometerMapping via aa.Inversion: (i) stand-in transformer returning an "
+             "arbitrary symbolic complex matrix, K<=3 visibilities, <=3 parameters in 1-2 linear objects, complex data and complex positive noise "
+             "(Re and Im independent) symbolic, with / without regularization; (ii) the real TransformerDFT (all masks of 1x2, K=2, two linear "
+             "objects, symbolic geometry), preload on/off.",
+    "thorough": "as quick with: kernels up to P=4, K=3, S=3; class: every mask of 2x3 and 3x2 (concrete geometries 0-2) and of 2x3 (symbolic geometry, K=3, "
+                "scale pairs (0.5,2.0) and (0.25,0.25)); inversion (i) up to K=4 visibilities and 4 parameters, (ii) all masks of 2x2, K=3, 2+1 parameters, "
+                "with and without regularization.",
+}
+OUTSIDE = [
+    "TransformerNUFFT, the interferometer w-tilde and PyLops (linear-operator) inversions (external library / stubbed code absent)",
+    "symbolic pixel scales in the class-level cases (Mask2D divides the origin by the pixel scale, which makes the trigonometric arguments "
+    "non-polynomial; a fixed set of dyadic / anisotropic scale pairs is used instead - the scalar geometry is C02's subject)",
+    "more than 6 image pixels, 4 baselines, 4 linear parameters",
+    "float64 rounding of the sums (exact real arithmetic; the concrete-geometry obligations carry a 1e-9 relative tolerance)",
+    "Visibilities built from [K,2] float arrays or .fits files (input conversion, not the transform)",
+]
+STUBS = [
+    "pylops: empty stand-in LinearOperator base class on sys.path (stubs_c13), as the property prescribes",
+    "np.cos / np.sin of a symbolic argument: one unconstrained real per distinct argument polynomial (canonical sum-of-monomials form of the z3 term) "
+    "plus the parity constraints cos(-t)=cos(t), sin(-t)=-sin(t) on the occurring arguments; this is weaker than an uninterpreted function "
+    "(no congruence assumed between syntactically different arguments), so every 'holds' verdict is valid for the real cos/sin; concrete arguments use the native functions",
+    "complex numbers: harness-local SymComplex proxy (pair of real terms, ring operations only) stored in object arrays; ndarray subclass PArray supplies "
+    ".real/.imag/.astype for such arrays; np.real/np.imag/np.array/np.asarray/np.hstack facades keep them intact (NumPy object arrays answer .imag with zeros)",
+    "case_inversion_stub: StandInTransformer.transform_mapping_matrix returns a symbolic complex matrix (contract: none - it is 'every transformed mapping matrix')",
+    "an object-array result whose entries are arrays is treated as a raised exception (NumPy's complex arrays refuse such a store with TypeError)",
+]
+ASSUMPTIONS = [
+    "masks explored by forking (one path per mask); the `if value > 0` sparsity branch of the mapping-matrix kernels is if-converted by the merge interpreter",
+    "noise-map real and imaginary parts > 0",
+    "concrete-geometry cases: |image|, |mapping matrix|, |visibilities| <= 1000 (the maps are linear; the bound only keeps the 1e-9 tolerance meaningful)",
+    "data vector / curvature matrix in the real-transformer case are compared with the Gram products of the transformed mapping matrix the inversion exposes; "
+    "that matrix is compared with the independent operator reference in the same case (compositional)",
+]
 EXPLORER_OPTS = {"timeout_ms": 20000, "max_paths": 20000}
 BUDGET_S = {"quick": 500, "thorough": 2300}
 
@@ -304,7 +344,13 @@ def POST_INSTALL():
     orig_ufunc = explore.Explorer.ufunc
 
     def ufunc(self, name, t):
-        return orig_ufunc(self, name, z3.simplify(t, som=True, sort_sums=True))
+        tc = z3.simplify(t, som=True, sort_sums=True)
+        if name in ("cos", "sin"):
+            # one unconstrained real per distinct canonical argument (syntactic Ackermannisation without congruence
+            # axioms): more general than an uninterpreted function, so 'unsat' carries over; keeps queries in QF_NRA (nlsat)
+            import hashlib
+            return V.SymReal(z3.Real("%s!%s" % (name, hashlib.md5(tc.sexpr().encode()).hexdigest()[:12])))
+        return orig_ufunc(self, name, tc)
 
     explore.Explorer.ufunc = ufunc
 
@@ -419,9 +465,12 @@ def ref_F(Tr, Ti, sr, si):
     return out
 
 
+FORK = [False]
+
+
 def _merging():
     from symx import merge, shim
-    if shim.ENABLED[0] and V._CTX[0] is not None:
+    if shim.ENABLED[0] and V._CTX[0] is not None and not FORK[0]:
         return merge.merging()
     import contextlib
     return contextlib.nullcontext()
@@ -457,6 +506,9 @@ def body_kernels(inp, P, K, S):
             v2 = hx.attempt(tu.visibilities_via_preload_jit_from, image_1d=image, preloaded_reals=pr, preloaded_imags=pi_)
             A["vis_preload.re"], A["vis_preload.im"] = _split(v2)
             E["vis_preload.re"], E["vis_preload.im"] = er, ei
+            if not isinstance(v1, hx.Raised) and not isinstance(v2, hx.Raised):      # the two real outputs against each other
+                A["vis_preload_vs_direct.re"], A["vis_preload_vs_direct.im"] = _split(v2)
+                E["vis_preload_vs_direct.re"], E["vis_preload_vs_direct.im"] = _split(v1)
         img = hx.attempt(tu.image_via_jit_from, n_pixels=P, grid_radians=grid, uv_wavelengths=uv, visibilities=vis)
         A["adjoint"], E["adjoint"] = img, ref_adjoint(C, Sn, vis[:, 0], vis[:, 1])
         tr, ti = ref_matrix(C, Sn, M)
@@ -476,7 +528,7 @@ def body_kernels(inp, P, K, S):
         for p in range(P):
             rhs = rhs + image[p] * img[p]
         A["adjointness"], E["adjointness"] = lhs, rhs
-    return A, E
+    return per_entry(A, E, [k for k in E if k.startswith("tmm_")])
 
 
 class PrefixKnown(dict):
@@ -540,6 +592,8 @@ def case_kernels(ctx, P, K, S):
     _parity_axioms(ctx, [theta(g[p, 0], g[p, 1], uv[k, 0], uv[k, 1]) for p in range(P) for k in range(K)])
     known = _known_matrix(inputs["M"], ["tmm_direct.re", "tmm_direct.im", "tmm_preload.re", "tmm_preload.im"])
     hx.run_body(ctx, body_kernels, inputs, {"P": P, "K": K, "S": S}, validate_every=0, known=known)
+    ctx.twin()          # reachability twin (encoding validation against native runs happens in the concrete-geometry cases:
+    #                     the abstract cos/sin values of a solver model are not those of the native functions)
 
 
 # =============================================================================================================
@@ -566,7 +620,14 @@ def _geometry(inp, H, W, K):
 
 
 def _norm_raise(x):
-    return hx.Raised("raised") if isinstance(x, hx.Raised) else x
+    """any exception -> one marker; an object-array result whose entries are arrays is what NumPy refuses natively
+    (storing a sequence into a complex array element raises TypeError)"""
+    if isinstance(x, hx.Raised):
+        return hx.Raised("raised")
+    a = np.asarray(hx.unwrap(x))
+    if a.dtype == object and any(isinstance(e, np.ndarray) for e in a.reshape(-1)):
+        return hx.Raised("raised")
+    return x
 
 
 def body_class(inp, H, W, K, S, preload):
@@ -680,11 +741,10 @@ def case_class_concrete(ctx, H, W, gid, S, preload):
                 known=_known_class(inputs, preload), validate_every=8)
 
 
-def case_class_symbolic(ctx, H, W, K, S, preload, zero_baseline=False):
+def case_class_symbolic(ctx, H, W, K, S, preload, scales=(0.5, 2.0), zero_baseline=False):
     mask = _sym_mask(ctx, H, W)
     ctx.set_case(mask=mask.tolist())
-    sy, sx = V.real("sy"), V.real("sx")
-    ctx.assume(z3.And(sy.t > 0, sx.t > 0))
+    sy, sx = float(scales[0]), float(scales[1])      # dyadic constants (Mask2D geometry divides by the pixel scale)
     oy, ox = V.real("oy"), V.real("ox")
     uv = V.real_array("uv", (K, 2))
     if zero_baseline:          # a zero baseline and a repeated baseline
@@ -699,6 +759,7 @@ def case_class_symbolic(ctx, H, W, K, S, preload, zero_baseline=False):
     _parity_axioms(ctx, [theta(gy[p], gx[p], uv[k, 0], uv[k, 1]) for p in range(len(pos)) for k in range(K)])
     hx.run_body(ctx, body_class, inputs, {"H": H, "W": W, "K": K, "S": S, "preload": preload},
                 known=_known_class(inputs, preload), validate_every=0)
+    ctx.twin()
 
 
 # =============================================================================================================
@@ -751,6 +812,10 @@ def body_inversion(inp, H, W, K, S1, S2, preload, mode, reg):
         T = hx.attempt(lambda: inv.operated_mapping_matrix)
         A["T.re"], A["T.im"] = _split(T)
         E["T.re"], E["T.im"] = Tr, Ti
+        if mode == "real" and not isinstance(T, hx.Raised):
+            # compositional: T is compared with the reference above; D and F are the Gram products of the matrix the
+            # inversion itself exposes (for every complex matrix: case_inversion_stub)
+            Tr, Ti = _split(T)
         A["D"] = hx.attempt(lambda: inv.data_vector)
         E["D"] = ref_D(Tr, Ti, d[:, 0], d[:, 1], s[:, 0], s[:, 1])
         F = ref_F(Tr, Ti, s[:, 0], s[:, 1])
@@ -763,7 +828,7 @@ def body_inversion(inp, H, W, K, S1, S2, preload, mode, reg):
     return per_entry(A, E, ["D", "F"])
 
 
-INV_KEYS = ["T.re", "T.im", "D", "F"]
+INV_KEYS = ["T.re", "T.im"]
 
 
 def _noise_positive(ctx, s):
@@ -783,36 +848,73 @@ def case_inversion_stub(ctx, K, S1, S2, reg):
                 validate_every=1)
 
 
-def case_inversion_real(ctx, H, W, K, S1, S2, preload, reg):
+def case_inversion_real(ctx, H, W, K, S1, S2, preload, reg, scales=(0.5, 2.0)):
     """the real TransformerDFT inside the inversion; geometry symbolic (uninterpreted trig), exact obligations"""
     mask = _sym_mask(ctx, H, W)
     ctx.set_case(mask=mask.tolist())
     n = S1 + S2
-    sy, sx = V.real("sy"), V.real("sx")
-    ctx.assume(z3.And(sy.t > 0, sx.t > 0))
+    sy, sx = float(scales[0]), float(scales[1])
     inputs = {"mask": mask, "origin": [V.real("oy"), V.real("ox")], "scales": [sy, sx], "uv": V.real_array("uv", (K, 2)),
               "M": V.real_array("m", (H * W, n)), "d": V.real_array("d", (K, 2)), "s": V.real_array("s", (K, 2))}
     _noise_positive(ctx, inputs["s"])
     known = _known_matrix(inputs["M"], INV_KEYS)
     hx.run_body(ctx, body_inversion, inputs, {"H": H, "W": W, "K": K, "S1": S1, "S2": S2, "preload": preload, "mode": "real", "reg": reg},
                 known=known, validate_every=0)
+    ctx.twin()
 
 
 BODIES = {"case_kernels": body_kernels, "case_class_concrete": body_class, "case_class_symbolic": body_class,
           "case_inversion_stub": body_inversion, "case_inversion_real": body_inversion}
 
 
+UF = {"logic": "QF_NRA"}
+NRA = {"logic": "QF_NRA"}
+
+
 def cases(tier):
     out = []
-    out.append(("case_kernels", {"P": 2, "K": 2, "S": 2}))
-    out.append(("case_class_concrete", {"H": 2, "W": 2, "gid": 0, "S": 2, "preload": True}))
-    out.append(("case_class_concrete", {"H": 2, "W": 2, "gid": 0, "S": 2, "preload": False}))
-    out.append(("case_class_symbolic", {"H": 2, "W": 2, "K": 2, "S": 2, "preload": True}))
-    out.append(("case_class_symbolic", {"H": 2, "W": 2, "K": 2, "S": 2, "preload": False}))
-    out.append(("case_inversion_stub", {"K": 2, "S1": 2, "S2": 1, "reg": True}))
-    out.append(("case_inversion_real", {"H": 1, "W": 2, "K": 2, "S1": 1, "S2": 1, "preload": True, "reg": True}))
+    q = tier == "quick"
+    for (P, K, S) in ([(2, 2, 2), (3, 2, 2)] if q else [(2, 2, 2), (3, 2, 2), (3, 3, 3), (4, 3, 2), (4, 2, 3)]):
+        out.append(("case_kernels", {"P": P, "K": K, "S": S}, UF))
+    if q:
+        for pre in (True, False):
+            out.append(("case_class_concrete", {"H": 2, "W": 2, "gid": 0, "S": 2, "preload": pre}))
+            out.append(("case_class_symbolic", {"H": 2, "W": 2, "K": 2, "S": 2, "preload": pre}, UF))
+            out.append(("case_inversion_real", {"H": 1, "W": 2, "K": 2, "S1": 1, "S2": 1, "preload": pre, "reg": True}, UF))
+        out.append(("case_class_concrete", {"H": 2, "W": 2, "gid": 1, "S": 1, "preload": True}))
+        out.append(("case_class_concrete", {"H": 2, "W": 2, "gid": 2, "S": 1, "preload": False}))
+        out.append(("case_inversion_stub", {"K": 2, "S1": 2, "S2": 1, "reg": True}, NRA))
+        out.append(("case_inversion_stub", {"K": 3, "S1": 1, "S2": 0, "reg": False}, NRA))
+    else:
+        for pre in (True, False):
+            for gid in range(len(GEOMS)):
+                for (H, W) in ((2, 3), (3, 2)):
+                    out.append(("case_class_concrete", {"H": H, "W": W, "gid": gid, "S": 2, "preload": pre}, {"split": 2}))
+            for sc in ((0.5, 2.0), (0.25, 0.25)):
+                out.append(("case_class_symbolic", {"H": 2, "W": 3, "K": 3, "S": 2, "preload": pre, "scales": list(sc)}, dict(UF, split=2)))
+            for reg in (True, False):
+                out.append(("case_inversion_real", {"H": 2, "W": 2, "K": 3, "S1": 2, "S2": 1, "preload": pre, "reg": reg}, UF))
+        for (K, S1, S2) in ((2, 2, 1), (3, 1, 0), (3, 2, 2), (4, 2, 1), (4, 4, 0)):
+            for reg in (True, False):
+                out.append(("case_inversion_stub", {"K": K, "S1": S1, "S2": S2, "reg": reg}, NRA))
     return out
 
 
 def replay(cand):
-    return hx.replay_body(BODIES[cand["case_fn"]], cand)
+    fn = cand["case_fn"]
+    kw = dict(cand["case_kwargs"])
+    if fn == "case_class_concrete":
+        kw["K"] = len(GEOMS[kw.pop("gid")]["uv"])
+    elif fn == "case_class_symbolic":
+        kw.pop("scales", None)
+        kw.pop("zero_baseline", None)
+        kw.pop("steer", None)
+    elif fn == "case_inversion_stub":
+        kw.update(H=1, W=2, preload=False, mode="stub")
+    elif fn == "case_inversion_real":
+        kw.pop("scales", None)
+        kw.pop("steer", None)
+        kw["mode"] = "real"
+    elif fn == "case_kernels":
+        kw.pop("steer", None)
+    return hx.replay_body(BODIES[fn], dict(cand, case_kwargs=kw))
